@@ -1,7 +1,7 @@
 (* C02 -- Existing outputs are never re-executed or modified.  Model: TaskFS (see PropC01). *)
 From Coq Require Import List Arith Lia Bool PeanoNat String.
 Import ListNotations.
-From SP Require Import Skel Gen Expected Result TaskFS TInv TPres Glue Cor TaskTop.
+From SP Require Import Skel Gen Expected ExpectedCones Result TaskFS TInv TPres Glue Cor TaskTop.
 
 (* T1: the skip check precedes slot acquisition, directory creation and the command; the skip branch still signals Done *)
 Theorem C02_code_conforms :
@@ -43,8 +43,19 @@ Proof.
   destruct (committed_is_ref c f0 WF fR HR s HI t Ht) as [_ Hs]. exact (Hs P x Hx).
 Qed.
 
+(* T1, call cones: every function of scipipe that the functions above can reach (calls and function values, interface calls
+   resolved to every implementation) is one the models were compared with -- a helper that is new to the cone, or a new call
+   of an old one, changes a list (the lists are regenerated from /repo on every run; ExpectedCones.v holds the accepted ones) *)
+Theorem C02_cone_conforms :
+  strs_eqb cone_Task_Execute exp_cone_Task_Execute
+  && strs_eqb cone_Task_anyOutputsExist exp_cone_Task_anyOutputsExist
+  && strs_eqb cone_Process_Run exp_cone_Process_Run
+  && strs_eqb cone_NewFileIP exp_cone_NewFileIP = true.
+Proof. vm_compute. reflexivity. Qed.
+
 Print Assumptions C02_code_conforms.
 Print Assumptions C02_skip.
 Print Assumptions C02_untouched.
 Print Assumptions C02_rerun_executes_nothing.
 Print Assumptions C02_skipped_outputs_are_inputs.
+Print Assumptions C02_cone_conforms.
